@@ -33,6 +33,7 @@
 #endif
 #include <fcntl.h>
 #include <signal.h>
+#include <sys/resource.h>
 #include <sys/wait.h>
 #include <unistd.h>
 
@@ -257,7 +258,10 @@ Outcome run_forked(std::vector<std::uint8_t> const& bytes) {
 	if(pid == 0) {
 		close(fd[0]);
 		if(efd >= 0) { dup2(efd, 2); }
-		alarm(20);
+		// a case is a handful of operations on arrays of a few hundred elements: 6 s of CPU time (not wall-clock: the machine may be loaded) means it does not
+		// terminate; the wall-clock alarm is only a backstop against a blocked child
+		{ struct rlimit rl; rl.rlim_cur = 6; rl.rlim_max = 8; setrlimit(RLIMIT_CPU, &rl); }
+		alarm(300);
 		crash_fd() = fd[1];
 #ifdef VP_HAVE_SAN_CB
 		__sanitizer_set_death_callback(ship_desc);
@@ -322,6 +326,10 @@ Outcome run_forked(std::vector<std::uint8_t> const& bytes) {
 		cls = "ubsan:" + cl;
 	} else if(err.find("terminate called") != std::string::npos) {
 		cls = "terminate";
+	} else if(WIFSIGNALED(st) && (WTERMSIG(st) == SIGXCPU || WTERMSIG(st) == SIGKILL)) {
+		cls = "cpu_time_limit";  // the case did not terminate within 6 s of CPU time
+	} else if(WIFSIGNALED(st) && WTERMSIG(st) == SIGALRM) {
+		cls = "wall_time_limit";
 	}
 	o.key = "crash/" + cls;
 	o.msg = "child died (" + what + "); stderr:\n" + err.substr(0, 3000);
